@@ -831,6 +831,16 @@ class Explorer:
                     self.incomplete = self.incomplete or f"solver unknown on obligation {label}"
                     return False
             m = self.solver.model()
+            # z3 occasionally answers sat on nonlinear queries with a model that does not satisfy the query: never trust it blindly
+            try:
+                if z3.is_false(z3.simplify(m.eval(neg, model_completion=True))):
+                    self.note("invalid_sat_model")
+                    if self._random_model(neg, extra) != z3.sat:
+                        self.incomplete = self.incomplete or f"solver returned an invalid model on obligation {label}"
+                        return False
+                    m = self.solver.model()
+            except z3.Z3Exception:
+                pass
             vals = self.model_values(m)
             hit = None
             for rid, builder in self.known_regions.get(label, []):
